@@ -27,6 +27,7 @@ def check(ck):
     r02_1(ck, sa)
     r02_2(ck)
     r02_4(ck)
+    r02_5(ck, sa)
 
 
 def entry_time_at_start(st, key):
@@ -232,3 +233,29 @@ def r02_4(ck):
     ck.require(ok, 'R02.4', init, 'DEFAULT_TIME_STEP',
                'DEFAULT_TIME_STEP is a positive constant',
                'DEFAULT_TIME_STEP is not a positive constant')
+
+
+def r02_5(ck, sa):
+    ck.rule('R02.5', 'intervals start when the process enters the '
+            'simulation: every front entry is created at the current '
+            'global time (constructor and first sight in run_for); a '
+            'forced call always gets a pass through the scheduler loop')
+    from . import c01, c10, c03
+    c01.r01_6(ck, sa.rf)
+    # re-label the obligations of the shared rules under this property
+    for o in ck.obligations:
+        if o['rule'] == 'R01.6':
+            o['rule'] = 'R02.5'
+    for v in ck.violations:
+        if v.rule == 'R01.6':
+            v.rule = 'R02.5'
+    ck.rules.pop('R01.6', None)
+    c03.r03_3(ck, sa)
+    for o in ck.obligations:
+        if o['rule'] == 'R03.3':
+            o['rule'] = 'R02.5'
+    for v in ck.violations:
+        if v.rule == 'R03.3':
+            v.rule = 'R02.5'
+    ck.rules.pop('R03.3', None)
+    ck.floors = [fl for fl in ck.floors]
